@@ -98,7 +98,7 @@ func nmHash(s string) uint64 {
 	return h
 }
 
-var nmLetters = strings.Split("a b c d e f g h i j k l m n o p q r s t u v w x y z A B C G K N S X Z", " ")
+var nmLetters = strings.Split("a b c d e f g h i j k l m n o p q r s t u v w x y z A B C G K N S X Z Benchmark Benchmarks Unit", " ")
 var nmRunes = []string{"é", "ß", "Ω", "世", "😀", "ж", "\u00a0", "\u2028", "\uff4b", "\u0663"} // incl. non-breaking space, line separator, full-width k, Arabic-Indic digit three
 var nmInvalid = []string{"\xff", "\x80", "\xc3", "\xe4\xb8", "\xf0\x9f", "\xc0\xaf", "\xed\xa0\x80"}
 var nmKeyWords = []string{"k", "size", "K", "gomaxproc", "gomaxprocss", "é", "GOMAXPROCS", "procs", "name", "fullname"}
